@@ -2,6 +2,7 @@ package checks
 
 import (
 	"bytes"
+	"context"
 	"encoding/json"
 	"errors"
 	"fmt"
@@ -57,7 +58,7 @@ func (c *countingStream) Write(p []byte) (int, error) {
 	return c.buf.Write(p)
 }
 
-var c20Ops = []string{"OnPutOnce", "OnPutAlways", "OnPutNest", "Has:k1", "Has:k2", "Put:k1", "Put:k2", "Put:id", "Close"}
+var c20Ops = []string{"OnPutOnce", "OnPutAlways", "OnPutNest", "Has:k1", "Has:k2", "Put:k1", "Put:k2", "Put:id", "Put:bad", "Put:k2c", "Close"}
 
 func c20Cfg(target string) lab.Cfg {
 	switch target {
@@ -130,6 +131,12 @@ func c20RunHistory(t *mon.T, target string, hist []string, dir string) {
 	dopts := cfg
 	var wat *iofault.MemFile
 	opts := cfg.Opts()
+	var prefix []byte
+	if strings.HasPrefix(target, "stream-writerat") && len(hist)%2 == 0 {
+		// the stream already holds data and its write position is behind it (a file opened for append-like
+		// use): an io.WriterAt is written from absolute offset 0 by the direct writer, and so by this one
+		prefix = bytes.Repeat([]byte{0xEE}, 37)
+	}
 	if target == "stream-writerat-v2" {
 		wat = iofault.New(nil)
 		opts = append(opts, carv2.WriteAsCarV1(false))
@@ -162,10 +169,17 @@ func c20RunHistory(t *mon.T, target string, hist []string, dir string) {
 	// the direct writer with the same roots/options, fed the same puts
 	direct := iofault.New(nil)
 	direct.NoLog = true
+	watBase := 0
+	if wat != nil && prefix != nil {
+		wat.Write(prefix)
+		direct.Write(prefix)
+		watBase = wat.Writes()
+		t.Cover("stream-writerat:write-position-not-at-the-start")
+	}
 	var dw storage.WritableCar
 	output := func() ([]byte, bool) {
 		if wat != nil {
-			return wat.Bytes(), wat.Writes() > 0
+			return wat.Bytes(), wat.Writes() > watBase
 		}
 		if isStream {
 			return stream.buf.Bytes(), stream.writes > 0
@@ -234,8 +248,23 @@ func c20RunHistory(t *mon.T, target string, hist []string, dir string) {
 				viol("Has/differs-from-model", "step %d: Has(%s) = %v, %v; want %v", i, op[4:], has, err, want)
 			}
 		case strings.HasPrefix(op, "Put:"):
-			b := blk[op[4:]]
-			err := w.Put(bg, string(b.Cid), b.Data)
+			b := blk[strings.TrimSuffix(op[4:], "c")]
+			pctx := bg
+			if op == "Put:k2c" {
+				// the caller's context is already cancelled: a direct writer does not look at it, so neither
+				// may the deferred one (the same puts must give the same bytes)
+				cctx, cancel := context.WithCancel(context.Background())
+				cancel()
+				pctx = cctx
+				t.Cover("put-under-a-cancelled-context")
+			}
+			badKey := op == "Put:bad"
+			if badKey {
+				// a key that is no CID: the Put fails — as a Put: callbacks fire, a deferred writer is started
+				// (a direct writer has its header out and rejects only the block)
+				b = refcar.Block{Cid: []byte("no CID at all"), Data: []byte("payload of the bad put")}
+			}
+			err := w.Put(pctx, string(b.Cid), b.Data)
 			t.Events(1)
 			if closed {
 				if !errors.Is(err, storage.ErrClosed) {
@@ -260,6 +289,26 @@ func c20RunHistory(t *mon.T, target string, hist []string, dir string) {
 				cbs = append(cbs, c)
 			}
 			nested = nil
+			if badKey && !failing && !(target == "path-v2-first-header-fails" && !pathFailed) {
+				if err == nil {
+					viol("Put/bad-key-accepted", "step %d: Put with a key that is no CID returned nil", i)
+					return
+				}
+				if !started {
+					started = true
+					var derr error
+					dw, derr = storage.NewWritable(direct, roots, opts...)
+					if derr != nil {
+						panic(derr)
+					}
+					t.Cover("first-put")
+				}
+				if derr := dw.Put(bg, string(b.Cid), b.Data); derr == nil {
+					panic("c20: the direct writer accepts a key that is no CID")
+				}
+				t.Cover("put-with-a-key-that-is-no-cid")
+				break
+			}
 			if err != nil && target == "path-v2-first-header-fails" && !pathFailed {
 				pathFailed = true // the injected fault: this Put is not acknowledged, the next one starts over
 				t.Cover("failing-path:first-put-failed")
@@ -291,7 +340,7 @@ func c20RunHistory(t *mon.T, target string, hist []string, dir string) {
 				}
 				t.Cover("first-put")
 			}
-			if derr := dw.Put(bg, string(b.Cid), b.Data); derr != nil {
+			if derr := dw.Put(pctx, string(b.Cid), b.Data); derr != nil {
 				panic(derr)
 			}
 			m.Put(b)
